@@ -49,13 +49,21 @@ class SymAppNamespace(REAL_APPNS):
         REAL_APPNS.__init__(self, *a, **k)
         self._mailboxes = SymDict(list(self._mailboxes.items()))
 
-    def _summarize_mailbox(self, side_rows, delete_time, pruned):
-        real = REAL_APPNS._summarize_mailbox
-        return E().merge_call(real, lambda: (self, _fresh_rows(side_rows), delete_time, pruned))
 
-    def _summarize_nameplate_usage(self, side_rows, delete_time, pruned):
-        real = REAL_APPNS._summarize_nameplate_usage
-        return E().merge_call(real, lambda: (self, _fresh_rows(side_rows), delete_time, pruned))
+
+def _merged(name):
+    real = getattr(REAL_APPNS, name)
+
+    def wrapper(self, side_rows, *args, **kwargs):
+        return E().merge_call(real, lambda: (self, _fresh_rows(side_rows)) + tuple(args))
+    wrapper.__name__ = name
+    return wrapper
+
+
+# (only if the working tree still has them under these names; otherwise they simply fork)
+for _n in ("_summarize_mailbox", "_summarize_nameplate_usage"):
+    if hasattr(REAL_APPNS, _n):
+        setattr(SymAppNamespace, _n, _merged(_n))
 
 
 class Factory:
